@@ -46,3 +46,14 @@ Theorem C01_guard_nonvacuous :
   forallb (fun m => match ex w_good (path m) with Ok _ => true | Fail _ => false end) w_good = true.
 Proof. exact good_pkg_ok. Qed.
 Print Assumptions C01_guard_nonvacuous.
+
+(* The real theorem: pkg_ok is a SUFFICIENT condition.  For every package skeleton whatsoever: if the executable
+   check holds (files parse, import-closed, eager import graph acyclic w.r.t. the computed order, no names imported
+   from own ancestors, distinct non-empty paths, bodies evaluate in topological order with exports bound), then
+   importing ANY module of the package from a fresh interpreter succeeds in the model of CPython's import system
+   (fuel size pkg = number of modules + 2 suffices).  Proof: induction over the import order with an invariant on
+   sys.modules (finished modules equal their canonical state; partially initialised ones all have higher rank). *)
+Theorem pkg_ok_sound : forall builtins pkg, pkg_ok builtins pkg = true ->
+  forall m, In m pkg -> exec_pkg builtins pkg (size pkg) m = Ok tt.
+Proof. exact pkg_ok_sound. Qed.
+Print Assumptions pkg_ok_sound.
